@@ -63,7 +63,12 @@ def make_repo_class(R, C, E, U):
             for cand in self.u.get(key, []):
                 cname, ver, reqs, readable = cand[:4]
                 sdist = bool(cand[4]) if len(cand) > 4 else False
-                c = R.Candidate(cname, None, U.parse_version(ver), None, None, "any", None,
+                import hashlib
+                fname = "{}-{}{}".format(cname, ver, ".tar.gz" if sdist else "-py3-none-any.whl")
+                # a PEP 503 style link: page URL + href relative to it, with the digest as fragment
+                link = ("https://idx.example/simple/{}/".format(key),
+                        "../../packages/{}#sha256={}".format(fname, hashlib.sha256(fname.encode()).hexdigest()))
+                c = R.Candidate(cname, None, U.parse_version(ver), None, None, "any", link,
                                 R.DistributionType.SDIST if sdist else R.DistributionType.WHEEL)
                 c._mem = (cname, ver, reqs, readable)
                 out.append(c)
@@ -117,7 +122,20 @@ def gen_req(rng, alphabet: List[str], targets: List[str], extras_p: float = 0.25
     s += gen_spec(rng, (versions or {}).get(t), loose)
     r = rng.random()
     if r < marker_p:
-        s += ' ; extra == "{}"'.format(rng.choice(alphabet[:2]))
+        x = rng.choice(alphabet[:2])
+        form = rng.random()
+        if form < 0.7:
+            s += ' ; extra == "{}"'.format(x)
+        elif form < 0.8:
+            # environment and extra combined: contains the plain `extra == ..` marker as a substring (marker merging),
+            # applies only under the extra
+            s += ' ; python_version >= "3" and extra == "{}"'.format(x)
+        elif form < 0.9:
+            # applies on this interpreter whether or not the extra is requested
+            s += ' ; python_version >= "3" or extra == "{}"'.format(x)
+        else:
+            # applies unless the extra is the one being expanded
+            s += ' ; extra != "{}"'.format(x)
     elif r < marker_p + 0.06:
         s += rng.choice([' ; python_version >= "3"', ' ; sys_platform == "win32"'])
     return s
@@ -174,6 +192,30 @@ def gen_deepconflict(rng, alphabet: List[str]) -> Dict[str, Any]:
             "allow_pre": False, "max_downgrade": rng.choice([None, None, 1, 2, 3]), "only_binary": None}
 
 
+def gen_project_inputs(rng, alphabet: List[str]) -> Dict[str, Any]:
+    """`req-compile ./proj_a ./proj_b reqs.txt`: some inputs are projects (solved, non-meta distributions taken from the
+    universe) that may require one another; the rest are requirement files"""
+    base = gen_case(rng, alphabet, rng.choice(["calm", "extras"]))
+    keys = list(base["universe"])
+    picked = rng.sample(keys, min(len(keys), rng.choice([1, 2, 2, 3])))
+    inputs, proj = [], {}
+    for k in picked:
+        cname, ver, reqs = base["universe"][k][0][:3]
+        if rng.random() < 0.5 and len(picked) > 1:
+            other = rng.choice([q for q in picked if q != k])
+            reqs = list(reqs) + [rng.choice(SPELL.get(other, [other]))]
+            cand = list(base["universe"][k][0])
+            cand[2] = reqs
+            base["universe"][k][0] = tuple(cand)
+        inputs.append((cname, list(reqs)))
+        proj[cname] = ver
+    if rng.random() < 0.5:
+        inputs.append(base["inputs"][0])
+    rng.shuffle(inputs)
+    base.update({"mode": "projects", "inputs": inputs, "project_inputs": proj, "constraints": None, "remove_constraints": False})
+    return base
+
+
 def gen_srcextras(rng, alphabet: List[str]) -> Dict[str, Any]:
     """compile-wide extras (perform_compile(extras=...) / --extra): a source-tree repository in front of an index, the two
     offering disjoint projects, requirements crossing in both directions, requirements under `extra == ..` markers"""
@@ -200,6 +242,8 @@ def gen_case(rng, alphabet: List[str], mode: Optional[str] = None) -> Dict[str, 
         return gen_deepconflict(rng, alphabet)
     if mode == "srcextras":
         return gen_srcextras(rng, alphabet)
+    if mode == "projects":
+        return gen_project_inputs(rng, alphabet)
     nproj = rng.choice([2, 3, 4, 4, 5, 6])
     projs = NAMES[:nproj]
     versions: Dict[str, List[str]] = {}
@@ -284,8 +328,17 @@ def all_markers(case: Dict[str, Any], U) -> List[str]:
     return out
 
 
-def container_tokens(C, U, name: str, reqs: List[str]) -> List[str]:
-    d = C.DistInfo(name, None, [U.parse_requirement(r) for r in reqs], meta=True)
+def input_dist(C, U, case: Dict[str, Any], name: str, reqs: List[str]):
+    """an input: a requirements file (meta container) or - `req-compile ./project` - a project, i.e. a solved,
+    non-meta distribution named and versioned like the project (case['project_inputs'][name] = version)"""
+    ver = (case.get("project_inputs") or {}).get(name)
+    if ver is None:
+        return C.DistInfo(name, None, [U.parse_requirement(r) for r in reqs], meta=True)
+    return C.DistInfo(name, U.parse_version(ver), [U.parse_requirement(r) for r in reqs])
+
+
+def container_tokens(C, U, name: str, reqs: List[str], case: Optional[Dict[str, Any]] = None) -> List[str]:
+    d = input_dist(C, U, case or {}, name, reqs)
     return graphenc.dist_tokens(d)
 
 
@@ -311,7 +364,7 @@ def case_line(case: Dict[str, Any], alphabet, xorder, C, U) -> str:
         toks += universe_tokens(layer["universe"], C, U)
     toks.append(str(len(case["inputs"])))
     for (name, reqs) in case["inputs"]:
-        toks += container_tokens(C, U, name, reqs)
+        toks += container_tokens(C, U, name, reqs, case)
     if case["constraints"] is None:
         toks.append("N")
     else:
@@ -347,7 +400,7 @@ def run_impl(case: Dict[str, Any], M, keep: bool = False, clear_caches: bool = T
     else:
         repo = Repo(case["universe"], case["allow_pre"])
     mk = lambda name, reqs: C.DistInfo(name, None, [U.parse_requirement(r) for r in reqs], meta=True)
-    inputs = [mk(n, r) for (n, r) in case["inputs"]]
+    inputs = [input_dist(C, U, case, n, r) for (n, r) in case["inputs"]]
     cons = None if case["constraints"] is None else [mk(n, r) for (n, r) in case["constraints"]]
     out: Dict[str, Any] = {}
     import contextlib
